@@ -55,7 +55,44 @@ def call(I, n):
     return call_value(I, n, callee, args, kwargs)
 
 
+class Vectorized:
+    """numpy.vectorize(f) / numpy.frompyfunc(f, ..): f applied element-wise; elements of plate arrays are wells."""
+
+    def __init__(self, fn):
+        self.fn = fn
+
+
+def well_of(I, v):
+    """The abstract element of an array argument of a vectorised per-well function."""
+    if isinstance(v, Cont):
+        return v
+    return Cont(I.new_sym('well'))
+
+
+def apply_per_well(I, n, fn, arrays):
+    if isinstance(fn, Vectorized):
+        fn = fn.fn
+    if not isinstance(fn, Closure):
+        return Other('applied')
+    I.R.notes.add('per-well function interpreted at its registration site')
+    return I.invoke(fn.node, [well_of(I, a) for a in arrays], {}, fn.env, node=n)
+
+
+def _dotted(f):
+    parts = []
+    while isinstance(f, ast.Attribute):
+        parts.append(f.attr)
+        f = f.value
+    if isinstance(f, ast.Name):
+        parts.append(f.id)
+        return '.'.join(reversed(parts))
+    return None
+
+
 def call_value(I, n, callee, args, kwargs):
+    if isinstance(callee, Vectorized):
+        nparams = len(callee.fn.node.args.args) if isinstance(callee.fn, Closure) else len(args)
+        return apply_per_well(I, n, callee, args[:nparams] if nparams else args)
     if isinstance(callee, Closure):
         return I.invoke(callee.node, args, kwargs, callee.env, node=n)
     if isinstance(callee, Other):
@@ -288,13 +325,20 @@ def call_attr(I, n, f, args, kwargs):
         return unit_api(I, n, name, args, kwargs)
     if isinstance(f.value, ast.Name) and f.value.id in I.model.classes and not I.env.has(f.value.id):
         return class_call(I, n, f.value.id, name, args, kwargs)
-    src = unparse(f)
-    if src.startswith(('numpy.', 'np.', 'pandas.', 'math.')):
+    src = _dotted(f)
+    if src is not None and src.startswith(('numpy.', 'np.', 'pandas.', 'math.')):
         hook = I.opts.get('numpy_hook')
         if hook is not None:
             r = hook(I, n, src.split('.', 1)[1], args, kwargs)
             if r is not None:
                 return r
+        short = src.split('.', 1)[1]
+        if short in ('vectorize', 'frompyfunc') and args:
+            return Vectorized(args[0])
+        if short in ('zeros', 'zeros_like'):
+            return Lit(0.0)
+        if short in ('shape', 'size'):
+            return Other(short)
         return Other('ext:' + src)
     recv = I.ev(f.value)
     t = I.as_tstr(recv)
@@ -338,13 +382,17 @@ def call_attr(I, n, f, args, kwargs):
                 return ListV(Tup([S(k) if isinstance(k, str) else Lit(k), v]) for k, v in recv.items())
             return ListV(recv.values()) if name == 'values' else ListV(S(k) if isinstance(k, str) else Lit(k) for k in recv)
         return Other('dict.' + name)
+    if isinstance(recv, (Obj, Other)) and name in ('apply', 'applymap', 'map') and args and \
+            isinstance(args[0], (Vectorized, Closure)):
+        apply_per_well(I, n, args[0], [Other('element')])
+        return Other('applied')
     if isinstance(recv, Obj):
         hook = I.opts.get('obj_method_hook')
         if hook is not None:
             r = hook(I, n, recv, name, args, kwargs)
             if r is not None:
                 return r
-        return Other(f"{recv.what}.{name}()")
+        return obj_method(I, n, recv, name, args, kwargs)
     if isinstance(recv, Closure):
         return Other('closure.' + name)
     if isinstance(recv, Gen):
@@ -360,6 +408,28 @@ def call_attr(I, n, f, args, kwargs):
             return class_call(I, n, recv.d[6:], name, args, kwargs)
         return Other(f"{recv.d}.{name}()")
     return Other('call.' + name)
+
+
+def obj_method(I, n, recv, name, args, kwargs):
+    """Methods of the generic objects (plates, slices, well arrays, recipe records)."""
+    what = recv.what
+    if what == 'wells':
+        if name == 'flatten':
+            r = ListV([Cont(I.new_sym('well'))])
+            r.open, r.elem = True, r[0]
+            return r
+        return Other('wells.' + name)
+    if what in ('Plate', 'PlateSlicer'):
+        if name in ('get',):
+            return Obj('wells')
+        if name in ('remove', 'fill_to'):
+            return Obj('Plate', dict(recv.attrs))
+        if name == '__getitem__':
+            return Obj('PlateSlicer', {'plate': recv})
+        fi = I.model.lookup_method(what, name)
+        if fi is not None and name in ('get_volumes', 'get_moles', 'get_volume', 'get_substances', 'dataframe'):
+            return I.invoke(fi.node, [recv] + args, kwargs, None, fi, n)
+    return Other(f"{what}.{name}()")
 
 
 def str_method(I, n, t: TStr, name, args):
